@@ -75,11 +75,14 @@ inductive BodyForm where
   | badProofHash     -- a proof line is not a base64 hash
 deriving DecidableEq, Repr
 
-/-- the signed note after the blank line: syntactically broken (only its first line matters, for the
-log lookup), or text + signature lines -/
+/-- the signed note after the blank line: syntactically broken before any signature line is read (only
+its first line matters, for the log lookup); text + signature lines; or text + the signature lines
+that precede the first syntactically broken one (`note.Open` verifies as it parses, so an invalid
+signature on an earlier line is reported before the syntax error) -/
 inductive NoteForm where
   | malformed (firstLine : Bytes)
   | wellformed (note : Note)
+  | truncated (note : Note)
 deriving DecidableEq, Repr
 
 structure AddReq where
@@ -92,7 +95,7 @@ deriving Repr
 /-- `origin, _, _ := strings.Cut(string(noteBytes), "\n")` -/
 def NoteForm.originLine : NoteForm → Bytes
   | .malformed l => l
-  | .wellformed n => match cutLine n.text with
+  | .wellformed n | .truncated n => match cutLine n.text with
     | some (l, _) => l
     | none => n.text
 
@@ -209,11 +212,15 @@ def Env.logCfg (e : Env) : Option LogCfg := e.cfg.find e.origin
 def Env.opened (e : Env) : Except OpenErr (List SigLine) :=
   match e.req.note, e.logCfg with
   | .wellformed n, some lc => noteOpen (lc.verifiers.map VKey.verifier) n
+  | .truncated n, some lc =>
+    match openLoop (lc.verifiers.map VKey.verifier) n.text n.sigs 0 [] [] with
+    | .error err => .error err
+    | .ok _ => .error .malformed
   | _, _ => .error .malformed
 
 def Env.text (e : Env) : Bytes :=
   match e.req.note with
-  | .wellformed n => n.text
+  | .wellformed n | .truncated n => n.text
   | .malformed _ => []
 
 /-- `torchwood.ParseCheckpoint(n.Text)` -/
